@@ -20,19 +20,33 @@ open Req.Pool.Lockset
 "AltSvcJar.GetAltSvc"), (13 = http3 RoundTripper.transport, "RoundTripper.dial"). -/
 def knownOpen : List (Nat × List Nat) := []  -- emptied: C09-1, C09-2, C09-4 are in /repo (088e6cf, 3380923, 7e6e7ad)
 
+/-- Peer settings of an HTTP/2 `ClientConn` (`maxConcurrentStreams`, `initialWindowSize`,
+`maxFrameSize`: "also guarded by wmu"): written under `mu` AND `wmu`, read under either. They
+have no lock common to all sites and follow the pairwise discipline. -/
+def twoMutexIds : List Nat := [20, 21, 22]
+
 /-- **anchored_fields_guarded**: every anchored shared field (and every `…Locked` calling
-convention) has a lock common to all its access sites. -/
+convention / inferred caller-holds helper) other than the two-mutex ones has a lock common to
+all its access sites. -/
 theorem anchored_fields_guarded :
-    allGuardedExcept knownOpen Generated.Locks.fields = true := by decide
+    allGuardedExcept knownOpen (Generated.Locks.fields.filter (fun f => !twoMutexIds.contains f.1)) = true := by
+  decide
 
-/-- The fourteen anchored fields and the calling-convention pseudo-fields are all present. -/
+/-- **anchored_fields_pairwise**: EVERY field of the table — the two-mutex ones included —
+satisfies the pairwise discipline (each two sites of which one can write share a lock). -/
+theorem anchored_fields_pairwise : allPairGuarded Generated.Locks.fields = true := by decide
+
+/-- The anchored fields are all present: 14 of round 1–3, the HTTP/2 demultiplexer state of a
+`ClientConn` under `cc.mu` (14 streams, 15 nextStreamID, 16 pendingRequests, 17 streamsReserved,
+18 goAway, 19 closed), the peer settings (20–22), the HTTP/3 datagram stream table (23) and the
+write side of an HTTP/2 connection under `cc.wmu` (24 bw, 25 hbuf, 26 the Framer's `Write*`). -/
 theorem anchored_fields_present :
-    ([0, 1, 2, 3, 4, 5, 6, 7, 8, 9, 10, 11, 12, 13].all
-      (fun i => (Generated.Locks.fields.lookup i).isSome)) = true := by decide
+    ((List.range 27).all (fun i => (Generated.Locks.fields.lookup i).isSome)) = true := by decide
 
-/-- Field ids checked without any exemption. -/
+/-- Field ids checked for a common lock, without any exemption. -/
 def strictIds : List Nat :=
-  (Generated.Locks.fields.map (·.1)).filter (fun i => !((knownOpen.map (·.1)).contains i))
+  (Generated.Locks.fields.map (·.1)).filter
+    (fun i => !((knownOpen.map (·.1)).contains i) && !twoMutexIds.contains i)
 
 theorem strict_fields_guarded :
     strictIds.all (fun x =>
@@ -56,5 +70,25 @@ theorem anchored_no_race (x : Nat) (hx : x ∈ strictIds) (tr : List Ev) (hwf : 
     simp only [factsOf, hl, List.mem_map] at hs
     obtain ⟨a, ha, rfl⟩ := hs
     exact hcom a ha
+
+/-- **anchored_no_race_pairwise**: for EVERY field of the table (two-mutex fields included), no
+well-formed execution that conforms to the extracted access sites (with their write flags)
+contains a data race on it. -/
+theorem anchored_no_race_pairwise (x : Nat) (tr : List Ev) (hwf : WF tr)
+    (hc : ConformsW (factsOfW Generated.Locks.fields) tr) : ¬ Race tr x := by
+  apply Req.Props.C09.lockset_sound_pairwise (factsOfW Generated.Locks.fields) tr hwf hc x
+  intro a ha b hb hw
+  cases hl : Generated.Locks.fields.lookup x with
+  | none => simp [factsOfW, hl] at ha
+  | some as =>
+    simp only [factsOfW, hl, List.mem_map] at ha hb
+    obtain ⟨a', ha', rfl⟩ := ha
+    obtain ⟨b', hb', rfl⟩ := hb
+    have hmem : (x, as) ∈ Generated.Locks.fields := by
+      obtain ⟨l1, l2, e, _⟩ := List.lookup_eq_some_iff.mp hl
+      rw [e]; simp
+    have hg : pairGuarded (as.map ofTuple) = true :=
+      List.all_eq_true.mp anchored_fields_pairwise (x, as) hmem
+    exact Req.Props.C09.pairGuarded_gives_shared _ hg a' b' ha' hb' hw
 
 end Bridge.C09
